@@ -303,7 +303,9 @@ def build_rules(specs):
         report.__name__ = report.__qualname__ = "report%d" % i
         report.__symx_order__ = 10 + i
         deps = [a] if kind == "skip" else []
-        rules.append(plugins.rule(*deps, tags=["tag%d" % i], links={"kcs": ["link%d" % i]})(report))
+        # the rule's content template (only used by formatters asked to render it): a fine one, or one that fails when rendered
+        content = ["fine {{ n }}", "{{ 1/0 }} {% if %}"][key]
+        rules.append(plugins.rule(*deps, tags=["tag%d" % i], links={"kcs": ["link%d" % i]}, content=content)(report))
     return rules
 
 
@@ -373,6 +375,8 @@ def run_report(specs, missing, show, evname, driver="serial"):
     elif evname == "yaml":
         from insights.formats._yaml import YamlFormat
         ev = YamlFormat(broker, missing=missing, show_rules=list(show), stream=io.StringIO())
+    elif evname == "json-render":
+        ev = JsonFormat(broker, missing=missing, render_content=True, show_rules=list(show), stream=io.StringIO())
     else:
         ev = JsonFormat(broker, missing=missing, show_rules=list(show), stream=io.StringIO())
     graph = {}
@@ -391,7 +395,7 @@ def run_report(specs, missing, show, evname, driver="serial"):
     return rules, response
 
 
-EVALUATORS = ["single", "json", "yaml"]
+EVALUATORS = ["single", "json", "yaml", "json-render"]
 
 
 def make_o3(nrules):
